@@ -107,6 +107,26 @@ def run_case(case):
                 res2.setdefault("cov", {})["second_function"] = 1
                 out.append(res2)
         return out
+    if kind == "ifelse":
+        # if/else statements whose two braced branches are each a short label/goto sequence (so that both branches, or a
+        # branch and the condition, can be wrong at once), in four surroundings
+        _, idx, n = case
+        atoms = [("label", "a"), ("label", "b"), ("goto", "a"), ("goto", "b")]
+        seqs = [[]] + [[x] for x in atoms] + [[x, y] for x in atoms for y in atoms]
+        surroundings = [([], []), ([("label", "a")], []), ([], [("label", "a")]), ([], [("label", "b"), ("label", "a")])]
+        i = 0
+        for then in seqs:
+            for els in seqs:
+                for before, after in surroundings:
+                    i += 1
+                    if i % n != idx:
+                        continue
+                    st = ("if", gen_scope.cond_true(), ("block", list(then)), ("block", list(els)))
+                    body = gen_scope.renumber_bumps(list(before) + [gen_scope.bump(1), st] + list(after))
+                    res = check_body(body)
+                    res.setdefault("cov", {})["ifelse_bodies"] = 1
+                    out.append(res)
+        return out
     if kind == "random":
         _, seed, i = case
         rng = common.rng_for(seed, PROP, "random", i)
@@ -155,6 +175,7 @@ def main(tier, seed, replay=None):
         for idx in range(shards):
             cases.append(("enum", size, depth, idx, shards))
     nrand = 1500 if tier == "quick" else 60000
+    cases += [("ifelse", idx, n) for idx in range(n)]
     cases += [("random", seed, i) for i in range(nrand)]
     results = common.run_sharded(run_case, cases)
     for r in results:
